@@ -600,6 +600,9 @@ class VariantBase(productmd.common.MetadataBase):
         if hasattr(self, "uid"):
             # detect Variant; we don't want to set parent for VariantBase or Variants
             variant.parent = self
+        else:
+            # top-level container: the variant must be valid as a top-level one
+            variant.parent = None
 
         variant.validate()
         variant_id = variant_id or variant.id
